@@ -22,6 +22,7 @@ import (
 	"sync/atomic"
 
 	"github.com/olive-io/bpmn/schema"
+	"github.com/olive-io/bpmn/v2/internal/verifhook"
 	"github.com/olive-io/bpmn/v2/pkg/errors"
 	"github.com/olive-io/bpmn/v2/pkg/tracing"
 )
@@ -73,10 +74,13 @@ func (gw *eventBasedGateway) run(ctx context.Context, sender tracing.ISenderHand
 					sequenceFlows: sequences,
 					actionTransformer: func(sequenceFlowId *schema.IdRef, action IAction) IAction {
 						// only the first one is to flow
+						verifhook.Point("ebg.transformer.enter")
 						if atomic.CompareAndSwapInt32(&first, 0, 1) {
+							verifhook.Point("ebg.transformer.won")
 							gw.tracer.Send(DeterminationMadeTrace{Node: gw.element})
 							for terminationCandidateId, ch := range terminationChannels {
 								if sequenceFlowId != nil && terminationCandidateId != *sequenceFlowId {
+									verifhook.Point("ebg.transformer.before_notify")
 									ch <- true
 								}
 								close(ch)
